@@ -46,8 +46,10 @@ const (
 	PrecComparison
 	PrecAddition
 	PrecMultiplication
-	PrecPostfix
 	PrecUnary
+	// postfix ++ and -- bind tighter than the prefix operators: -a++ and
+	// !seen[k]++ apply the prefix operator to the value of the increment
+	PrecPostfix
 	PrecCall
 	PrecGroup
 )
